@@ -114,6 +114,23 @@ structure Datagram where
   kind : Kind
   deriving DecidableEq, Repr
 
+/-! ### STUN / application demultiplexing on the raw bytes -/
+
+/-- `QXmppStunMessage::peekType` + the cookie test in `handleDatagram`: a received datagram is taken for a STUN message iff it
+has at least the 20 header bytes, its 16-bit length field (bytes 2..3, big endian) equals size − 20, its 16-bit type (bytes 0..1)
+is not 0, AND bytes 4..7 are the magic cookie 0x2112A442.  Everything else is application data. -/
+def isStun (b : List UInt8) : Bool :=
+  match b with
+  | t0 :: t1 :: l0 :: l1 :: c0 :: c1 :: c2 :: c3 :: _ =>
+    decide (b.length ≥ 20) && (l0.toNat * 256 + l1.toNat == b.length - 20) && (t0.toNat * 256 + t1.toNat != 0) &&
+      (c0 == 0x21 && c1 == 0x12 && c2 == 0xA4 && c3 == 0x42)
+  | _ => false
+
+/-- a received datagram as the component sees it: `parse` stands for the STUN decoder's reading of the bytes (a parameter: it is
+only consulted for datagrams that ARE STUN messages by `isStun`) -/
+def Datagram.ofBytes (parse : List UInt8 → Stun) (src : Nat) (b : List UInt8) : Datagram :=
+  if isStun b then { src := src, kind := .stun (parse b) } else { src := src, kind := .nonStun b }
+
 /-- the integrity status that proves knowledge of the session credentials for a message of this class:
 requests/indications are verified with the local password, responses/errors with the remote one
 (`(messageType & 0xFF00) ? remotePassword : localPassword`). -/
@@ -423,6 +440,10 @@ def react (s : St) (d : Datagram) : St × List Out :=
       | none => s
     (s1, [.appData payload])
   | .stun m => if s.stunTx.contains m.txid then reactServer s m else reactPeer s d.src m
+
+/-- `handleDatagram` on raw bytes -/
+def receive (parse : List UInt8 → Stun) (s : St) (src : Nat) (b : List UInt8) : St × List Out :=
+  react s (Datagram.ofBytes parse src b)
 
 /-! ### the other entry points -/
 
